@@ -253,6 +253,9 @@ pub enum Content {
     /// 16 bits = height) is the footprint of one destination pixel: the sign-adversarial
     /// content for kernels with negative lobes (largest accumulator excursions)
     Blocks,
+    /// float types: every value subnormal (flush-to-zero / denormals-are-zero modes of the
+    /// FPU change the result); integer types: small values
+    Tiny,
 }
 
 #[derive(Clone, Debug, PartialEq, Serialize, Deserialize)]
